@@ -153,6 +153,20 @@ pub fn refine(c: &Collector, prop: &str, engine: &str, t: &Trans, comps: &[Comp]
                            "dont_care": m.dc.why}),
                 ));
             }
+            if m.all_dirty && !m.dc.all && (post.lines, post.columns) == (m.s.lines, m.s.columns) {
+                local.count("reverse_video_switches");
+                if let Some(y) = (0..post.lines).find(|y| !post.dirty.contains(y)) {
+                    ok = false;
+                    c.violation(mk_violation(
+                        prop,
+                        engine,
+                        t,
+                        "dirty-not-all",
+                        format!("a reverse-video switch marks all rows dirty; row {} is missing from dirty = {:?}", y, post.dirty),
+                        json!({}),
+                    ));
+                }
+            }
             let w = wellformed(post_screen);
             if !w.is_empty() {
                 ok = false;
@@ -257,5 +271,23 @@ pub fn expand_ok(t: &Trans) -> bool {
         // magnitude more memory per state and every operation treats columns uniformly
         Ok((s, _, _)) => wellformed(s).is_empty() && s.columns <= 16,
         Err(_) => false,
+    }
+}
+
+/// Follow-up to an editing transition: widen / lengthen the post-state and demand that the cells
+/// which appear are blank (nothing the operation wrote or left outside the visible area may come
+/// back). Reported as a transition `script + [op]` --Resize--> .
+pub fn then_grow(c: &Collector, prop: &str, engine: &str, t: &Trans, local: &mut Local) {
+    if matches!(t.op, Op::Feed(..) | Op::FeedBytes(..) | Op::Resize(..)) {
+        return;
+    }
+    if let Ok((post_screen, post, _)) = t.outcome {
+        let grow = Op::Resize(Some(post.lines + 1), Some(post.columns + 2));
+        let out = crate::explore::run_op(post_screen, &grow);
+        let mut script = t.script.to_vec();
+        script.push(t.op.clone());
+        let t2 = Trans { columns: t.columns, lines: t.lines, script: &script, pre: post, pre_screen: post_screen, op: &grow, outcome: &out };
+        local.count("then_grow");
+        refine(c, prop, engine, &t2, &[Comp::Grid, Comp::Geometry], local);
     }
 }
